@@ -219,6 +219,12 @@ def tr_lexer(ctx):
     read_integer = py2lean.translate_function(
         src, "_read_over_integer", "Lexer._read_over_integer", cls="Lexer", params=dict(st), ret="Unit", self_state=["_position"],
         consts=consts, methods={"_read_over_digits": "Lexer._read_over_digits"})
+    num_tok = ("Tuple", BOOL, INT, INT, TEXT)
+    read_number = py2lean.translate_function(
+        src, "_read_number", "Lexer._read_number", cls="Lexer", params=dict(st), ret=num_tok, self_state=["_position"],
+        consts=consts, join=True, locals_={"char": ("Option", py2lean.CHAR)},
+        methods={"_read_over_digits": "Lexer._read_over_digits", "_read_over_integer": "Lexer._read_over_integer"},
+        externals={"Float": Ext("Py.tokNum true", num_tok), "Integer": Ext("Py.tokNum false", num_tok)})
     ignored = None
     for n in ast.parse(src).body:
         if isinstance(n, ast.Assign) and len(n.targets) == 1 and isinstance(n.targets[0], ast.Name) and n.targets[0].id == "IGNORED_CHARS":
@@ -243,10 +249,12 @@ def tr_lexer(ctx):
             "   whose final value is returned next to the result; `Name(start, end, value)` is the triple of its arguments;\n"
             "   `digits` / `ascii_letters` are the constants of the standard `string` module (checked: imported from there);\n"
             "   the exception arguments (position, source) are dropped; `self._read_over_digits()` is the translated method above run on\n"
-            "   the current attribute values; the default parameter `__ignored` is the module literal IGNORED_CHARS. -/")
+            "   the current attribute values; the default parameter `__ignored` is the module literal IGNORED_CHARS;\n"
+            "   in `_read_number` the local `char` is Optional[str] (`None` after the end of the source), `Float(..)` / `Integer(..)` are\n"
+            "   (is_float, start, end, value), and the statements after each if / try are one auxiliary definition `.kN`. -/")
     return {"PyGqlModel/Generated/TrLexer.lean":
-            _file("src/py_gql/lang/lexer.py (Lexer._read_name, _read_over_digits, _read_over_integer, _read_over_whitespace, _read_ellipsis)",
-                  [read_name, read_digits, read_integer, read_ws, read_ellipsis], note)}
+            _file("src/py_gql/lang/lexer.py (Lexer._read_name, _read_over_digits, _read_over_integer, _read_over_whitespace, _read_ellipsis, _read_number)",
+                  [read_name, read_digits, read_integer, read_ws, read_ellipsis, read_number], note)}
 
 
 def tr_c01(ctx):
